@@ -2,10 +2,12 @@
    This file holds ONLY the statements of the property theorems, each closed by `exact <lemma>`, and
    `Print Assumptions` beneath.  Models: Model/Json.v (serialization/jsonstreamer.go, jsontodata.go),
    Model/Pb.v (proto/convert.go, types/basiccollector.go), Model/PbMem.v (the stack of protoConsumer as a Go slice
-   over backing arrays that `append` abandons when it grows).  An "event tree" `ev` is one top-level call on a
+   over backing arrays that `append` abandons when it grows), Model/JsonSer.v (serialization/serializer.go: which call the
+   Serializer makes at which position - toData, the dedup memo, the three hash routes, stringified values).  An "event tree" `ev` is one top-level call on a
    px.ValueConsumer with the calls its doer makes nested inside (Add / AddRef / AddArray / AddHash). *)
 From Coq Require Import ZArith NArith Bool List.
-From PcoreV Require Import Model.Base Model.Json Model.Pb Model.PbMem Proofs.JsonProofs Proofs.PbProofs Proofs.PbMemProofs.
+From PcoreV Require Import Model.Base Model.Json Model.Pb Model.PbMem Model.JsonSer Proofs.JsonProofs Proofs.PbProofs Proofs.PbMemProofs
+  Proofs.JsonSerProofs.
 Import ListNotations.
 Open Scope Z_scope.
 
@@ -214,6 +216,37 @@ Proof. exact collect_events_of. Qed.
 Print Assumptions C11_collect_events_of.
 
 (* ============================================================================================== *)
+(* "ANY serializer output": the Serializer in front of the JSON streamer                          *)
+
+(* Whatever the value (hashes with keys of any kind, Sensitive, Binary, Default, values that are turned into
+   their string form; shared sub-values, repeated long strings), whatever the options (rich_data, dedup_level,
+   thresholds, binary support), the dedup level a position is sent at and the state of the dedup memo: a consumer
+   that cannot do complex keys receives Add(String) at every key position of every hash - never an AddRef. *)
+Theorem C11_ser_keys_are_strings :
+  forall c level v st, ckeys c = false -> keys_wf (fst (ser c level v st)) = true.
+Proof. exact ser_keys_are_strings. Qed.
+Print Assumptions C11_ser_keys_are_strings.
+
+(* hence Serializer -> NewJsonStreamer writes valid JSON for every value of the model whose floats are finite,
+   under every option set *)
+Theorem C11_ser_json_always_valid :
+  forall rich_data dedup_level v, sval_finite v = true ->
+  exists toks, stream_top (ser_top (json_cfg rich_data dedup_level) v) = Ok toks /\ json_valid toks = true.
+Proof. exact ser_json_valid. Qed.
+Print Assumptions C11_ser_json_always_valid.
+
+(* the model tells the code from the variant that sends the stringified key of a hash with non-String keys at
+   the level of a VALUE (seeded change C11-m5): [{MinInt64 => "a"}, {MinInt64 => "b"}] under rich_data => false -
+   the second key (20 bytes = the streamer's dedup threshold, seen before) becomes {"__pref":2}: invalid JSON *)
+Theorem C11_ser_key_level_refuted :
+  sval_finite m5_witness = true /\
+  ser_top_level1 (json_cfg false 2) m5_witness =
+    EArr [EHash [EAdd (SStr minint_text); EAdd (SStr [97%N])]; EHash [ERef 2; EAdd (SStr [98%N])]] /\
+  exists toks, stream_top (ser_top_level1 (json_cfg false 2) m5_witness) = Ok toks /\ json_valid toks = false.
+Proof. exact ser_level1_key_refuted. Qed.
+Print Assumptions C11_ser_key_level_refuted.
+
+(* ============================================================================================== *)
 (* Non-vacuity: the hypotheses are satisfiable and the models compute non-trivial concrete cases.   *)
 
 (* [1, [], {"a": 2.0, "b": {}}, "é", ref 1, -2^63, []] : empty containers and a hash at non-first positions,
@@ -288,4 +321,24 @@ Example C11_pb_slices_nonvacuous :
   (let* m := pcm_ev go_grow false (sl_make1 [] 8 []) e in Ok (length (m_heap m), sl_cap (m_sl m))) = Ok (2%nat, 16%nat) /\
   pc_run_mem e = Ok (PbArr [PbInt 7; pb_of_ev (nest 11%nat (EArr [EAdd (SInt 42); EAdd (SFloat 4602678819172646912)])); PbInt 8]) /\
   (let* d := pc_run_mem e in consume_pb d) = Ok e.
+Proof. repeat split; vm_compute; reflexivity. Qed.
+
+(* the Serializer's placement of calls: an Integer key and a 21-byte string that occurs as a value, then as a key, then
+   as a value again, a shared array; rich_data => false: the key is stringified and stays a string, the repeated value
+   and the shared array become references; rich_data => true: the hash is sent as {__ptype: Hash, __pvalue: [k, v, ...]} *)
+Definition ex_long : str := [97;32;115;116;114;105;110;103;32;111;102;32;50;49;32;98;121;116;101;115;33]%N.
+Definition ex_sval : sval :=
+  XArr 1 [XStr ex_long; XArr 2 [XSc (SInt 1)];
+          XHash 3 [(XSc (SInt 7), [55%N], XArr 2 [XSc (SInt 1)]); (XStr ex_long, ex_long, XStr ex_long)]].
+
+Example C11_ser_nonvacuous :
+  sval_finite ex_sval = true /\
+  ser_top (json_cfg false 2) ex_sval =
+    EArr [EAdd (SStr ex_long); EArr [EAdd (SInt 1)];
+          EHash [EAdd (SStr [55%N]); ERef 2; EAdd (SStr ex_long); ERef 1]] /\
+  ser_top (json_cfg true 2) ex_sval =
+    EArr [EAdd (SStr ex_long); EArr [EAdd (SInt 1)];
+          EHash [EAdd (SStr s_ptype); EAdd (SStr s_Hash); EAdd (SStr s_pvalue);
+                 EArr [EAdd (SInt 7); ERef 2; ERef 1; ERef 1]]] /\
+  json_valid (render (ser_top (json_cfg false 2) ex_sval)) = true.
 Proof. repeat split; vm_compute; reflexivity. Qed.
